@@ -1178,6 +1178,10 @@ from mlmverif.selfcheck import B, OK  # noqa: E402
 
 _F = 'chainables/io.py'
 VARIANTS = [
+    OK('sequence-iterator-counts-after-a-successful-draw-in-else', 'chainables/io.py',
+       "      self._index += 1\n      raise\n    self._index += 1\n    return result\n\n  def __iter__(self) -> Self:", "      self._index += 1\n      raise\n    else:\n      self._index += 1\n    return result\n\n  def __iter__(self) -> Self:"),
+    OK('range-cache-explicitly-unbounded', 'utils/iter_utils.py',
+       "    self._cache = collections.deque()\n\n  def __next__(self):\n    while not self._cache and self.i < self.stop:", "    self._cache = collections.deque(())\n\n  def __next__(self):\n    while not self._cache and self.i < self.stop:"),
     B('sequence-iterator-counts-in-finally', 'chainables/io.py',
       "    except StopIteration:\n      raise\n    except Exception:\n      # The reader steps over a record it cannot read before raising, the\n      # iteration can continue behind it: the record still occupies an index.\n      self._index += 1\n      raise\n    self._index += 1\n    return result",
       "      return result\n    finally:\n      self._index += 1", 'R-C09-16'),
